@@ -332,4 +332,44 @@ theorem matrix_spec (P C : SelList) (hP : ∀ p ∈ P, goodParent p = true) :
   apply mapE_ok_map
   intro c _
   exact combine_eq p c (hP p hp)
+
+/-! ### repeated `&` -/
+
+theorem length_flatMap_const {α β : Type} (f : α → List β) (n : Nat) (l : List α) (h : ∀ a ∈ l, (f a).length = n) :
+    (l.flatMap f).length = l.length * n := by
+  induction l with
+  | nil => simp
+  | cons a as ih =>
+    simp only [List.flatMap_cons, List.length_append, List.length_cons, h a (by simp),
+      ih (fun x hx => h x (by simp [hx]))]
+    rw [Nat.add_mul]; omega
+
+/-- every `&`-compound multiplies the number of results by the number of parents -/
+theorem foldComps_length (P : SelList) (hP : ∀ p ∈ P, goodParent p = true) :
+    ∀ (cs : List Comp) (acc : List Complex),
+      ∃ R, foldComps P acc cs = .ok R ∧ R.length = acc.length * P.length ^ parentRefs cs
+  | [], acc => ⟨acc, rfl, by simp [parentRefs]⟩
+  | .comb x :: rest, acc => by
+    obtain ⟨R, h1, h2⟩ := foldComps_length P hP rest (acc.map (· ++ [.comb x]))
+    refine ⟨R, by simp only [foldComps, stepComp, h1], ?_⟩
+    rw [h2, parentRefs_cons]; simp [compHasParent]
+  | .cmp k :: rest, acc => by
+    by_cases hk : k.par.isSome = true
+    · obtain ⟨R, h1, h2⟩ := foldComps_length P hP rest
+        (acc.flatMap (fun nc => (P.map (fun p => substCompoundT p k)).map (nc ++ ·)))
+      refine ⟨R, by simp only [foldComps, stepComp, resolveCompound_some P hP k hk, h1], ?_⟩
+      rw [h2, parentRefs_cons, length_flatMap_const _ P.length acc (by intro a _; simp)]
+      simp only [compHasParent, hk, if_true]
+      rw [Nat.pow_add, Nat.pow_one, Nat.mul_assoc]
+    · have hk' : k.par.isSome = false := by simpa using hk
+      obtain ⟨R, h1, h2⟩ := foldComps_length P hP rest (acc.map (· ++ [.cmp k]))
+      refine ⟨R, by simp only [foldComps, stepComp, resolveCompound_none P k hk', h1], ?_⟩
+      rw [h2, parentRefs_cons]; simp [compHasParent, hk']
+
+theorem resolveComplex_length (P : SelList) (hP : ∀ p ∈ P, goodParent p = true) (implicit : Bool) (c : Complex)
+    (hc : complexHasParent c = true) :
+    ∃ R, resolveComplex implicit P c = .ok R ∧ R.length = P.length ^ parentRefs c := by
+  obtain ⟨R, h1, h2⟩ := foldComps_length P hP c [[]]
+  exact ⟨R, by simp [resolveComplex, hc, h1], by simpa using h2⟩
+
 end Grass.CssTree
